@@ -309,13 +309,14 @@ Fixpoint ovl_eqb (a b : list (option value)) : bool :=
             methods = []
             for i in range(rng.choice([2, 3])):
                 methods.append(dict(name=rng.choice([base, base + '_x', 'm']),
-                                    version=rng.choice([None, None, '1', '2', '1.0', 'x']),
+                                    version=rng.choice([None, None, '1', '2', '1.0', 'x', '', 0]),
                                     sig=sig, ignore=[p['name'] for p in sig if rng.random() < 0.15]))
             # distinct (name, version) pairs only: two methods of one class cannot share both
             seen, ms = set(), []
             for m in methods:
-                if (m['name'], m['version']) not in seen:
-                    seen.add((m['name'], m['version']))
+                vkey = None if m['version'] is None else str(m['version'])
+                if (m['name'], vkey) not in seen:
+                    seen.add((m['name'], vkey))
                     ms.append(m)
             pool = gen_pool(rng, sig)
             calls = []
@@ -348,7 +349,7 @@ Fixpoint ovl_eqb (a b : list (option value)) : bool :=
 
     def encode(self, case, obs):
         ms = clist(['{| m_name := %s; m_version := %s; m_sig := %s; m_ignore := %s |}' % (
-            cstr(m['name']), copt(m['version'], cstr), csig(m['sig']), clist([cstr(s) for s in m['ignore']]))
+            cstr(m['name']), copt(None if m['version'] is None else str(m['version']), cstr), csig(m['sig']), clist([cstr(s) for s in m['ignore']]))
             for m in case['methods']])
         calls = clist([cpair(cnat(c['m']), clist([cvalue(a) for a in c['args']]), ckw(c['kwargs']))
                        for c in case['calls']])
